@@ -225,12 +225,16 @@ def _project_header_chunks(d, drop=None, order=None):
             out.append((cid.encode(), F.codec(kind)[0](d[attr])))
     if order == "reversed":
         out.reverse()
+    elif isinstance(order, int):
+        out = out[order:] + out[:order]
     return out
 
 
 def _header_cases(tier):
     ids = [c[0] for c in F.PROJECT_CHUNKS]
     cases = [("all_present", (None, None)), ("reversed_order", (None, "reversed"))]
+    rots = [len(ids) // 2] if tier == "quick" else [1, 3, len(ids) // 2, len(ids) - 1]
+    cases += [(f"rotated_by_{k}", (None, k)) for k in rots]
     drops = ids if tier == "thorough" else ["BVER", "SFGS", "BPM ", "NAME", "TIME", "LGEN", "PATL"]
     for cid in drops:
         cases.append((f"without_{cid.strip()}", (cid, None)))
